@@ -15,12 +15,14 @@ import WK.Proofs.C37_drain
   `Close returned nil`, every task whose Submit returned nil (now or later) had left
   its handler (or had its cancellation hook run) before that event.
 
-  Three protocols as coded do NOT satisfy it; each has its decided counter-schedule and
-  the theorem for the repaired protocol:
-    * ShardedMailbox   (`c37_mailbox_close_counterexample`,  `c37_mailbox_repaired_close_waits`)
-    * BoundedPool      (`c37_boundedpool_close_counterexample`, `c37_boundedpool_repaired_close_waits`)
-    * BoundedBatchPool with CancelAcceptedOnClose
-                       (`c37_batchpool_cancel_close_counterexample`, `c37_batchpool_cancel_repaired_close_waits`)
+  Three protocols did NOT satisfy it before their repairs (commits 63edb0069, 4488b79d4, ff82f924c).
+  The models the driver's judge corresponds to are the protocols AS CODED NOW; close_waits is proved
+  for all four queues, and the decided counter-schedule of each old protocol is kept as documentation:
+    * ShardedMailbox   `c37_mailbox_close_waits`          / `c37_mailbox_pre_fix_counterexample`
+    * BoundedPool      `c37_boundedpool_close_waits`      / `c37_boundedpool_pre_fix_counterexample`
+    * BoundedBatchPool `c37_batchpool_close_waits`, `c37_batchpool_cancel_close_waits`
+                                                          / `c37_batchpool_cancel_pre_fix_counterexample`
+    * BoundedWorkerQueue `c37_workerqueue_close_waits`
 
   Reduction note (mailbox): the locked region of SubmitHash (`closed` checks, full check,
   enqueue, `scheduled` edge, `wg.Add`) is one step.  Everything that can interleave with it
@@ -80,13 +82,13 @@ theorem c37_pool_close_waits (cfg : PoolCfg) (hc : cfg.Sound) {s : Pool} (r : Po
 theorem c37_batchpool_close_waits {s : Pool} (r : PoolReach cfgBatchPool s) : closeWaits s.log = true :=
   c37_pool_close_waits _ ⟨rfl, by simp [cfgBatchPool]⟩ r
 
-/-- BoundedPool with the admission lock (the proposed repair) waits -/
-theorem c37_boundedpool_repaired_close_waits {s : Pool} (r : PoolReach cfgBoundedPoolRepaired s) :
+/-- BoundedPool as coded (admission lock) waits -/
+theorem c37_boundedpool_close_waits {s : Pool} (r : PoolReach cfgBoundedPool s) :
     closeWaits s.log = true :=
-  c37_pool_close_waits _ ⟨rfl, by simp [cfgBoundedPoolRepaired]⟩ r
+  c37_pool_close_waits _ ⟨rfl, by simp [cfgBoundedPool]⟩ r
 
-/-- BoundedBatchPool with CancelAcceptedOnClose and the dispatcher repair waits -/
-theorem c37_batchpool_cancel_repaired_close_waits {s : Pool} (r : PoolReach cfgBatchPoolCancelRepaired s) :
+/-- BoundedBatchPool as coded with CancelAcceptedOnClose waits (every accepted item ran or was cancelled) -/
+theorem c37_batchpool_cancel_close_waits {s : Pool} (r : PoolReach cfgBatchPoolCancel s) :
     closeWaits s.log = true :=
   c37_pool_close_waits _ ⟨rfl, fun _ => rfl⟩ r
 
@@ -114,14 +116,14 @@ theorem PoolStuck.steps {cfg : PoolCfg} {s s' : Pool} (h : PoolStuck s) (st : Po
     obtain ⟨h'', e'⟩ := h'.step st
     exact ⟨h'', e'.trans e⟩
 
-/-- BoundedPool AS CODED: a Submit that passed the closed check before Close, and reaches its
+/-- BoundedPool BEFORE ITS REPAIR: a Submit that passed the closed check before Close, and reaches its
     final select after Close returned nil, may take the `queue <- task` branch; the task is
     admitted (Submit returns nil) and is never run, in no continuation.  The judge classifies
     the log as the narrow known finding. -/
-theorem c37_boundedpool_close_counterexample :
-    ∃ s, PoolReach cfgBoundedPool s ∧ closeWaits s.log = false ∧ 0 ∈ accs s.log ∧
-      (∀ s', PoolSteps cfgBoundedPool s s' → 0 ∉ fin s'.log) := by
-  have r0 := PoolReach.init (cfg := cfgBoundedPool)
+theorem c37_boundedpool_pre_fix_counterexample :
+    ∃ s, PoolReach cfgBoundedPoolPreFix s ∧ closeWaits s.log = false ∧ 0 ∈ accs s.log ∧
+      (∀ s', PoolSteps cfgBoundedPoolPreFix s s' → 0 ∉ fin s'.log) := by
+  have r0 := PoolReach.init (cfg := cfgBoundedPoolPreFix)
   have r1 := r0.step (PoolStep.subCheck _ 0 rfl rfl)
   have r2 := r1.step (PoolStep.cStoreN _ rfl rfl)
   have r3 := r2.step (PoolStep.cStop _ rfl)
@@ -137,13 +139,13 @@ theorem c37_boundedpool_close_counterexample :
   rw [e]
   decide
 
-/-- BoundedBatchPool AS CODED with CancelAcceptedOnClose: when `submitToExecutor` gives up
+/-- BoundedBatchPool BEFORE ITS REPAIR with CancelAcceptedOnClose: when `submitToExecutor` gives up
     because Close started (executor saturated), the dispatcher cancels the batch in hand and
     returns; the rest of the queue is neither run nor cancelled, and Close returns nil. -/
-theorem c37_batchpool_cancel_close_counterexample :
-    ∃ s, PoolReach cfgBatchPoolCancel s ∧ closeWaits s.log = false ∧ 1 ∈ accs s.log ∧
-      (∀ s', PoolSteps cfgBatchPoolCancel s s' → 1 ∉ fin s'.log) := by
-  have r0 := PoolReach.init (cfg := cfgBatchPoolCancel)
+theorem c37_batchpool_cancel_pre_fix_counterexample :
+    ∃ s, PoolReach cfgBatchPoolCancelPreFix s ∧ closeWaits s.log = false ∧ 1 ∈ accs s.log ∧
+      (∀ s', PoolSteps cfgBatchPoolCancelPreFix s s' → 1 ∉ fin s'.log) := by
+  have r0 := PoolReach.init (cfg := cfgBatchPoolCancelPreFix)
   -- two submitters are admitted
   have r1 := r0.step (PoolStep.subCheck _ 0 rfl rfl)
   have r2 := r1.step (PoolStep.subRLock _ 0 rfl rfl rfl)
@@ -300,8 +302,8 @@ theorem c37_single_drain_log (cfg : MBCfg) {s : MB} (r : MBReach cfg s) : single
   obtain ⟨act, h, _⟩ := r.drainInv
   simp [singleDrain, h]
 
-/-- the mailbox with the repaired finishShardDrain waits -/
-theorem c37_mailbox_repaired_close_waits (cfg : MBCfg) (hr : cfg.repaired = true) {s : MB} (r : MBReach cfg s) :
+/-- the mailbox as coded (finishShardDrain re-schedules while the context is alive) waits -/
+theorem c37_mailbox_close_waits (cfg : MBCfg) (hr : cfg.repaired = true) {s : MB} (r : MBReach cfg s) :
     closeWaits s.log = true := by
   have h := r.inv
   have hw := r.waited hr
@@ -314,10 +316,10 @@ theorem c37_mailbox_repaired_close_waits (cfg : MBCfg) (hr : cfg.repaired = true
     exact Or.inl (hw hin t ((h.enqIff t).mpr (Or.inr hp)))
   · simp [closeWaits, hin]
 
-/-- one shard, as coded -/
-def cfgMailbox1 : MBCfg := { nsh := 1, cap := 4, sh := fun _ => 0, repaired := false }
+/-- one shard, protocol before the repair -/
+def cfgMailbox1PreFix : MBCfg := { nsh := 1, cap := 4, sh := fun _ => 0, repaired := false }
 
-example : MBReach { cfgMailbox1 with repaired := true } MB.init := .init
+example : MBReach { cfgMailbox1PreFix with repaired := true } MB.init := .init
 
 inductive MBSteps (cfg : MBCfg) : MB → MB → Prop
   | refl (s : MB) : MBSteps cfg s s
@@ -341,14 +343,14 @@ theorem MBStuck.steps {cfg : MBCfg} {s s' : MB} (h : MBStuck s) (st : MBSteps cf
     obtain ⟨h'', e'⟩ := h'.step st
     exact ⟨h'', e'.trans e⟩
 
-/-- ShardedMailbox AS CODED (DESIGN §8.2): the drain's final empty check, then Submit(1) is
+/-- ShardedMailbox BEFORE ITS REPAIR (DESIGN §8.2): the drain's final empty check, then Submit(1) is
     admitted (the shard is still scheduled, so no drain is invoked), then Close sets its flags,
     then finishShardDrain refuses to re-schedule because the mailbox is closed and calls
     wg.Done(); Close returns nil; task 1 is never run, in no continuation. -/
-theorem c37_mailbox_close_counterexample :
-    ∃ s, MBReach cfgMailbox1 s ∧ closeWaits s.log = false ∧ 1 ∈ accs s.log ∧
-      (∀ s', MBSteps cfgMailbox1 s s' → 1 ∉ runs s'.log) := by
-  have r0 := MBReach.init (cfg := cfgMailbox1)
+theorem c37_mailbox_pre_fix_counterexample :
+    ∃ s, MBReach cfgMailbox1PreFix s ∧ closeWaits s.log = false ∧ 1 ∈ accs s.log ∧
+      (∀ s', MBSteps cfgMailbox1PreFix s s' → 1 ∉ runs s'.log) := by
+  have r0 := MBReach.init (cfg := cfgMailbox1PreFix)
   have r1 := r0.step (MBStep.subCheck _ 0 rfl rfl)
   have r2 := r1.step (MBStep.subEnqSched _ 0 rfl rfl rfl (by decide) rfl)
   have r3 := r2.step (MBStep.subRet _ 0 rfl)
